@@ -56,7 +56,7 @@ class World(object):
         self.n = n
         self.edges = edges
         for i in range(n):
-            req, g1, g2, opt = [], [], [], []
+            req, g1, g2, opt, topt = [], [], [], [], []
             for j in range(i):
                 k = edges.get((i, j), "none")
                 c = self.comps[j]
@@ -68,6 +68,8 @@ class World(object):
                     g2.append(c)
                 elif k == "optional":
                     opt.append(c)
+                elif k == "type-optional":
+                    topt.append(c)
             deps = list(req)
             if g1:
                 deps.append(g1)
@@ -89,7 +91,11 @@ class World(object):
             body.__qualname__ = "c%d" % i
             body.__symx_order__ = i
             kw = {"prio": prios[i]} if prios and prios.get(i) else {}
-            self.comps.append(ctype(*deps, optional=opt, **kw)(body if hashes is None else HashedCallable(body, hashes[i])))
+            ct = ctype
+            if topt:
+                # an implicit optional dependency of every component of this type: the documented class attribute `optional`
+                ct = type("ctype_%d" % i, (ctype,), {"optional": list(topt)})
+            self.comps.append(ct(*deps, optional=opt, **kw)(body if hashes is None else HashedCallable(body, hashes[i])))
 
     def add_late(self, i, j):
         """dr.add_dependency after the components exist (what a spec set does when it hooks a datasource into a registry point):
@@ -463,6 +469,11 @@ def obligations(tier):
                        stubs=stubs, encoded=enc, budget_s=1500, replay="run", check_sample=True),
         ]
     obls += [
+        Obligation("O9-type-level-optional", make_o2(3, ["none", "required", "type-optional", "optional"], ["all", "last"], "global", ["value", "skip"], 0),
+                   ["run-returns", "once-and-ordered"],
+                   desc="optional dependencies that come from the component type (the class attribute `optional` of a ComponentType subclass) instead of the decorator call: they take part in the evaluation and are attempted first like any declared dependency",
+                   bounds={"components": 3, "edge kinds": ["none", "required", "type-optional", "optional"], "outcomes": ["value", "skip"], "targets": "all named / last named", "set order": "every global total order"},
+                   stubs=stubs, encoded=enc, budget_s=200, replay="run", check_sample=True),
         Obligation("O5-late-dependency", make_o2(4 if thorough else 3, ["none", "required", "group1"], ["all", "last", "group"], "global", ["value", "skip"], 0, late=True),
                    ["run-returns", "once-and-ordered"],
                    desc="a dependency declared late with dr.add_dependency, after the components were already used once (their graph was built, or they were evaluated): the next evaluation still runs the new dependency first",
